@@ -1009,6 +1009,7 @@ func main() {
 	type sk struct {
 		p     *pkg
 		funcs []string
+		extra []string // further callee names recorded as "call f" inside this group only
 	}
 	lp := loadPkg("internal/lossy")
 	xs := loadPkg("internal/xsync")
@@ -1017,11 +1018,16 @@ func main() {
 			"cache.rescheduleCleanUpIfIncomplete", "cache.maintenance", "cache.drainWriteBuffer", "cache.shouldDrainBuffers", "cache.afterRead", "cache.getNode",
 			"cache.SetMaximum", "cache.GetMaximum", "cache.WeightedSize", "cache.InvalidateAll", "cache.CleanUp", "cache.evictionOrder",
 			"group.startCall", "group.deleteCall", "group.delete", "group.doCall", "group.doBulkCall", "cache.afterDeleteCall",
-			"cache.Get", "cache.BulkGet", "cache.refreshKey", "cache.bulkRefreshKeys", "cache.wrapLoad", "call.cancel", "call.wait"}},
-		{qp, []string{"MPSC.TryPush", "MPSC.pushSlowPath", "MPSC.resize", "MPSC.TryPop", "MPSC.getNextBuffer", "MPSC.newBufferTryPush", "MPSC.newBufferAndOffset"}},
-		{lp, []string{"ring.add", "ring.drainTo", "Striped.Add", "Striped.expandOrRetry", "Striped.DrainTo"}},
-		{xs, []string{"Adder.Add", "Adder.Value"}},
-		{hp, []string{"Map.Get", "Map.Compute", "Map.resize", "Map.waitForResize", "Map.Range", "Map.copyBucket", "Map.copyBucketWithDestLock", "Map.newerTableExists", "Map.resizeInProgress"}},
+			"cache.Get", "cache.BulkGet", "cache.refreshKey", "cache.bulkRefreshKeys", "cache.wrapLoad", "call.cancel", "call.wait"}, nil},
+		// how an entry leaves the cache and how that is reported (Conc.Events)
+		{ot, []string{"cache.atomicSet", "cache.atomicDelete", "cache.deleteNodeFromMap", "cache.afterWrite", "cache.afterDelete", "cache.deleteNode",
+			"cache.evictNode", "cache.runTask", "cache.notifyDeletion", "cache.notifyAtomicDeletion", "cache.makeRetired", "cache.makeDead"},
+			[]string{"notifyDeletion", "notifyAtomicDeletion", "makeRetired", "makeDead", "deleteNodeFromMap", "afterDelete", "afterWriteTask", "getTask", "putTask",
+				"Compute", "delete", "Delete", "Add", "add", "update", "RecordEviction", "Retire", "Die", "executor", "onDeletion", "onAtomicDeletion"}},
+		{qp, []string{"MPSC.TryPush", "MPSC.pushSlowPath", "MPSC.resize", "MPSC.TryPop", "MPSC.getNextBuffer", "MPSC.newBufferTryPush", "MPSC.newBufferAndOffset"}, nil},
+		{lp, []string{"ring.add", "ring.drainTo", "Striped.Add", "Striped.expandOrRetry", "Striped.DrainTo"}, nil},
+		{xs, []string{"Adder.Add", "Adder.Value"}, nil},
+		{hp, []string{"Map.Get", "Map.Compute", "Map.resize", "Map.waitForResize", "Map.Range", "Map.copyBucket", "Map.copyBucketWithDestLock", "Map.newerTableExists", "Map.resizeInProgress"}, nil},
 	}
 	for _, g := range groups {
 		listed := map[string]bool{}
@@ -1029,6 +1035,9 @@ func main() {
 			listed[f[strings.Index(f, ".")+1:]] = true
 		}
 		for _, extra := range []string{"evictNode", "runTask", "TryPush", "TryPop", "DrainTo", "drainReadBuffer", "expireNodes", "evictNodes", "climb", "deleteNode", "Invalidate", "wait", "cancel", "Wait", "Done"} {
+			listed[extra] = true
+		}
+		for _, extra := range g.extra {
 			listed[extra] = true
 		}
 		for _, f := range g.funcs {
